@@ -29,6 +29,7 @@ import (
 
 	"github.com/versity/versitygw/auth"
 	"github.com/versity/versitygw/backend"
+	"github.com/versity/versitygw/internal/verifhook"
 	"github.com/versity/versitygw/s3err"
 	"golang.org/x/sys/unix"
 )
@@ -164,12 +165,14 @@ func (tmp *tmpfile) link() error {
 	// temp file into place for the object. This ensures the object semantics
 	// of last upload completed wins and is not some combination of writes
 	// from simultaneous uploads.
+	verifhook.Point("link.enter")
 	objPath := filepath.Join(tmp.bucket, tmp.objname)
 	err := os.Remove(objPath)
 	if err != nil && !errors.Is(err, fs.ErrNotExist) {
 		return fmt.Errorf("remove stale path: %w", err)
 	}
 
+	verifhook.Point("link.afterRemove")
 	dir := filepath.Dir(objPath)
 
 	err = backend.MkdirAll(dir, tmp.uid, tmp.gid, tmp.needsChown, tmp.newDirPerm)
@@ -177,6 +180,7 @@ func (tmp *tmpfile) link() error {
 		return fmt.Errorf("make parent dir: %w", err)
 	}
 
+	verifhook.Point("link.afterMkdir")
 	if !tmp.isOTmp {
 		// O_TMPFILE not suported, use fallback
 		return tmp.fallbackLink()
@@ -211,6 +215,7 @@ func (tmp *tmpfile) link() error {
 		break
 	}
 
+	verifhook.Point("link.afterLinkat")
 	err = tmp.f.Close()
 	if err != nil {
 		return fmt.Errorf("close tmpfile: %w", err)
@@ -233,6 +238,7 @@ func (tmp *tmpfile) fallbackLink() error {
 		return fmt.Errorf("close tmpfile: %w", err)
 	}
 
+	verifhook.Point("flink.beforeRename")
 	objPath := filepath.Join(tmp.bucket, tmp.objname)
 	err = os.Rename(tempname, objPath)
 	if err != nil {
@@ -241,6 +247,7 @@ func (tmp *tmpfile) fallbackLink() error {
 		return backend.MoveFile(tempname, objPath, fs.FileMode(defaultFilePerm))
 	}
 
+	verifhook.Point("flink.afterRename")
 	return nil
 }
 
